@@ -655,6 +655,16 @@ func (cs *Contracts) parseFile(path, pkg string) error {
 			}
 			curLemma = &Lemma{Name: m[1], Pkg: pkg, Props: append([]string(nil), props...), Params: ps}
 			pend = &pending{kind: "lemma", src: m[3], line: lineNo}
+		case "lockwrapper":
+			// lockwrapper <func> <mutex field> r|w
+			if err := flush(); err != nil {
+				return err
+			}
+			fs := strings.Fields(rest)
+			if len(fs) != 3 {
+				return fmt.Errorf("%s:%d: expected 'lockwrapper <func> <mutex> r|w'", path, lineNo)
+			}
+			cs.Fields = append(cs.Fields, &FieldDecl{Type: fs[0], Pkg: pkg, Kind: "lockwrapper", Arg: fs[1] + " " + fs[2], Props: append([]string(nil), props...)})
 		case "nouse":
 			// nouse <func>: after "<callee>" argument <i>   the i-th argument of the call is not used by any instruction the call dominates
 			if err := flush(); err != nil {
